@@ -14,7 +14,7 @@ what `find` delivers (nothing to find for the empty tree) -/
 def resolve (ed : Ed) (pb : Path) (oid : Bytes) : Option (List Entry) :=
   match aget pb ed.trees with
   | some t => some t
-  | none => if oid == emptyTreeId then some [] else aget oid ed.store
+  | none => if noFind oid then some [] else aget oid ed.store
 
 /-- the leaf an entry denotes: non-tree and not a null-id placeholder -/
 def leafOf (e : Entry) : Option Leaf :=
@@ -49,6 +49,8 @@ structure StoreOk (store : Assoc Bytes (List Entry)) : Prop where
   trees : ∀ id t, aget id store = some t → TreeOk t
   closed : ∀ id t, aget id store = some t → ∀ e ∈ t, e.isTree = true →
     e.oid = emptyTreeId ∨ (aget e.oid store).isSome = true
+  /-- nothing is stored under the null id -/
+  nonull : aget nullId store = none
 
 structure Inv (ed : Ed) : Prop where
   root : (aget [] ed.trees).isSome = true
@@ -193,8 +195,9 @@ theorem storeOk_resolve {ed : Ed} (hs : StoreOk ed.store) {id : Bytes} {t : List
   | some _ => simp
   | none =>
     rcases hs.closed id t ht e he hd with h | h
-    · simp [h]
-    · by_cases h2 : e.oid == emptyTreeId
+    · have : noFind e.oid = true := by simp [noFind, h]
+      simp [this]
+    · by_cases h2 : noFind e.oid = true
       · simp [h2]
       · simpa [h2] using h
 
@@ -393,7 +396,7 @@ theorem descend_dir {ed : Ed} (hinv : Inv ed) {P : Path} (hpb : ed.pathBuf = P) 
         descend ed n (some e.oid) = .ok { ed with pathBuf := P ++ [n], trees := aset (P ++ [n]) tn ed.trees } ∧
         TreeOk tn ∧ (∀ x ∈ tn, x.isTree = true → (resolve ed (P ++ [n] ++ [x.name]) x.oid).isSome = true) := by
       simp only [resolve, hc] at hclosed
-      by_cases hempty : e.oid == emptyTreeId
+      by_cases hempty : noFind e.oid = true
       · exact ⟨[], by simp [resolve, hc, hempty], by simp [descend, hpb, hc, hempty], treeOk_nil,
           by simp⟩
       · simp only [hempty, Bool.false_eq_true, if_false] at hclosed
